@@ -4,6 +4,7 @@ import JobShopModel.Equality
 import JobShopModel.Views
 import JobShopModel.Features
 import JobShopModel.Generator
+import JobShopModel.Viz
 /-!
 # Line-protocol driver for the executable model
 
@@ -472,6 +473,9 @@ def fworldSnapshot (w : FWorld) : String :=
     | none => ""
   s!"subs {fmtNats w.subs} || " ++ " || ".intercalate obs
 
+def fmtBars (bs : List Bar) : String :=
+  lst (" ".intercalate (bs.map fun b => s!"{b.y}:{b.x}:{b.width}:{b.job}"))
+
 def stepAll (d : DW) (line : String) : DW × String :=
   match toks line with
   | "inst" :: _ =>
@@ -520,6 +524,21 @@ def stepAll (d : DW) (line : String) : DW × String :=
     | some bb => (d, fmtGraph (build bb d.w.cfg.I))
     | none => (d, "bad-op")
   | ["solved"] => (d, fmtGraph (buildSolved d.w.cfg.I d.w.s))
+  | ["bars"] => (d, fmtBars (bars d.w.s) ++ " ; legend " ++ lst (fmtNats (legendJobs d.w.s)))
+  | ["ticks", x, n] =>
+    let xlim : Option Nat := if x == "-" then some (makespan d.w.s).toNat else x.toNat?
+    (match xlim, n.toNat? with
+     | some xl, some nn => (d, s!"xlim {xl} ticks " ++ lst (fmtNats (xticks xl nn)))
+     | _, _ => (d, "bad-op"))
+  | ["fname", i] => (match i.toNat? with | some k => (d, frameName k) | none => (d, "bad-op"))
+  | "frames" :: rest => (match nats? rest with | some l => (d, lst (fmtNats (loadOrder l))) | none => (d, "bad-op"))
+  | "animate" :: rest =>
+    (match (ints? rest).bind parseHist with
+     | some h =>
+       let I := d.w.cfg.I
+       let frames := (List.range h.length).map fun k => fmtBars (bars (replayHist I (h.take (k + 1))))
+       (d, s!"xlim {(makespan (replayHist I h)).toNat} " ++ " / ".intercalate frames)
+     | none => (d, "bad-op"))
   | ["fres", b, rm, rj] =>
     match parseBuilder b with
     | some bb =>
